@@ -84,6 +84,15 @@ def prop(spec, rec):
 
     # (1) determinism
     again = sc.build_sim(spec)
+    if spec.get("peek_before_run", True):
+        # looking is not touching: the second build is inspected through its interface (sessions,
+        # infrastructure, last rates, feasibility of an all-zero schedule) before it is run
+        iface = again.scheduler.interface
+        iface.active_sessions()
+        iface.infrastructure_info()
+        iface.last_applied_pilot_signals, iface.last_actual_charging_rate, iface.get_prev_peak()
+        iface.is_feasible({sid: [0.0] for sid in again.net.station_ids})
+        labels.add("inspected_before_run")
     sc.run_sim(again)
     require(np.array_equal(again.sim.pilot_signals, base.sim.pilot_signals) and np.array_equal(again.sim.charging_rates, base.sim.charging_rates), "same_inputs_different_outputs", "two simulations built from the same spec differ")
     require({k: ev.energy_delivered for k, ev in again.evs.items()} == e0 and again.sim.peak == base.sim.peak, "same_inputs_different_energies", "energies/peak differ between two identical builds")
